@@ -772,6 +772,33 @@ func (g *Gen) opSet() bool {
 	return true
 }
 
+// opGetRel: the relation target of one component through Map.GetRelation / Unsafe.GetRelation, mostly for
+// a relation component the entity has, sometimes for one it lacks or for a non-relation component
+func (g *Gen) opGetRel() bool {
+	el, l, alive := g.pickEntity(g.cfg.stale)
+	if el == "" || el == "z" {
+		return false
+	}
+	var cand []int
+	if alive && !g.chance(0.25) {
+		for n := range g.compsOf(l) {
+			if g.isRel(n) || g.chance(0.2) {
+				cand = append(cand, n)
+			}
+		}
+		sort.Ints(cand)
+	}
+	if len(cand) == 0 {
+		cand = g.regNames()
+	}
+	if len(cand) == 0 {
+		return false
+	}
+	n := cand[g.pick(len(cand))]
+	g.emit(fmt.Sprintf("getrel %s %s c%d", el, []string{"u", "m"}[g.pick(2)], n))
+	return true
+}
+
 func (g *Gen) opSetRel() bool {
 	el, l, alive := g.pickEntity(g.cfg.stale)
 	if el == "" {
@@ -1965,6 +1992,7 @@ func (g *Gen) Run(nseq, nops int) {
 			{"staleq", 1, g.opStaleTargetQuery},
 			{"tuplescn", 1, g.opTupleScenario},
 			{"locked", 1, func() bool { g.emit("locked"); return true }},
+			{"getrel", 2, g.opGetRel},
 			{"bigtable", 1, g.opBigTable},
 			{"batchtarget", 1, g.opBatchTarget},
 			{"lockexh", 1, g.opLockExhaustion},
